@@ -73,6 +73,11 @@ def run(ctx):
     mm.tinv(ctx, "min", 20000 if ctx.thorough() else 6000)
     c = cli_runs(ctx)
     vlib.validate_trace(ctx, "MinOutTrace", c, "CLI min -p s2m|m2s, m 7..28", "reset")
+    # w = 0 (one window spanning the record) on a record of more than 2^20 bases: the line is judged as one iterator run with
+    # w = record length (LongTrace)
+    wb = ctx.path("w0big.ndjson")
+    vlib.kvh(["trace", "minw0big", ctx.seed, ctx.rundir], out=wb)
+    vlib.validate_trace(ctx, "LongTrace", wb, "min -w 0 on a record of 1.08 million bases: one window, one run", "minit", timeout=3000)
     # listings into a pipe that is drained slowly (the pipe is full while several workers want to write; lines longer than the
     # pipe buffer): the same set of lines as into a file
     import hashlib, subprocess, time
